@@ -947,11 +947,15 @@ func ruleTabSuffix(c *Ctx, r *Rep) {
 			if calleeFullName(ci) != "strings.HasSuffix" {
 				continue
 			}
-			k, ok := ci.Common().Args[1].(*ssa.Const)
-			if !ok || k.Value == nil {
+			if k, ok := ci.Common().Args[1].(*ssa.Const); ok && k.Value != nil {
+				local[constant.StringVal(k.Value)] = true
+			} else if list := stringListElement(c, ci.Common().Args[1]); list != nil {
+				for _, x := range list {
+					local[x] = true
+				}
+			} else {
 				continue
 			}
-			local[constant.StringVal(k.Value)] = true
 			call, ok := ci.Common().Args[0].(*ssa.Call)
 			if !ok || calleeFullName(call) != "strings.ToLower" {
 				allLower = false
@@ -987,3 +991,36 @@ func ruleTabSuffix(c *Ctx, r *Rep) {
 
 var _ = big.NewInt
 var _ = syntax.Parse
+
+// stringListElement: v is an element of a package-level []string literal (ranged or indexed); returns the literal's strings.
+func stringListElement(c *Ctx, v ssa.Value) []string {
+	u, ok := v.(*ssa.UnOp)
+	if !ok {
+		return nil
+	}
+	ia, ok := u.X.(*ssa.IndexAddr)
+	if !ok {
+		return nil
+	}
+	lu, ok := ia.X.(*ssa.UnOp)
+	if !ok {
+		return nil
+	}
+	g, ok := lu.X.(*ssa.Global)
+	if !ok || len(c.globalWrites(g.Object())) > 0 {
+		return nil
+	}
+	d := c.evaluator().GlobalVal(g.Object())
+	if d.Kind != "list" {
+		return nil
+	}
+	var out []string
+	for _, e := range d.Elems {
+		s, ok := e.Str()
+		if !ok {
+			return nil
+		}
+		out = append(out, s)
+	}
+	return out
+}
